@@ -495,7 +495,8 @@ inline bool s_prove(const std::string &name, const F &f) {
     r.violations.push_back(v); return false; }
 // many equalities at once: one query, bisected on unknown; on sat the failing ones are identified by evaluation under the model
 inline void s_prove_all(const std::string &name, const std::vector<F> &fs, size_t lo=0, size_t hi=(size_t)-1) {
-    if (hi==(size_t)-1) { hi=fs.size(); report().obligations+=fs.size(); if (!fs.empty() && report().samples.size()<6) { Emit e2; std::string s=smt_f(fs[0],e2); if (s.size()>600) s=s.substr(0,600)+"..."; report().samples.push_back(name+"[0]: "+s); } }
+    if (hi==(size_t)-1) { hi=fs.size(); report().obligations+=fs.size(); size_t pick=0; for (size_t i=0;i<fs.size();++i) if (!(fs[i].k==F::REL && fs[i].a==fs[i].b)) { pick=i; break; }
+        if (!fs.empty() && report().samples.size()<6 && (!(fs[pick].k==F::REL && fs[pick].a==fs[pick].b) || report().obligations>400)) { Emit e2; std::string s=smt_f(fs[pick],e2); if (s.size()>600) s=s.substr(0,600)+"..."; report().samples.push_back(name+"["+std::to_string(pick)+"]: "+s); } }
     if (lo>=hi) return; Ctx &c=ctx(); Report &r=report();
     Emit e; std::vector<std::string> as; std::set<id_t> vs; std::string disj="(or"; bool alltriv=true;
     for (size_t i=lo;i<hi;++i) { f_dens(fs[i],vs); if (!(fs[i].k==F::REL && fs[i].cmp==EQ && fs[i].a==fs[i].b)) alltriv=false; disj+=" (not "+smt_f(fs[i],e)+")"; } disj+=")";
